@@ -152,7 +152,7 @@ end
 
 mutual
 /-- Packages met by `MethodScope.populateImports`, in traversal order, duplicates kept.
-    No case for `basic`, `tparam`, `union` – exactly as in the Go code. -/
+    No case for `basic`, `tparam` – exactly as in the Go code (the `Union` case was added by the fix of F-08). -/
 def pkgsOf : Ty → List PkgRef
   | .basic _ => []
   | .named p _ targs _ => (if p.path = [] then [] else [p]) ++ pkgsOfList targs
@@ -166,7 +166,7 @@ def pkgsOf : Ty → List PkgRef
   | .struct _ ft _ _ => pkgsOfList ft
   | .iface _ ms em _ => pkgsOfList ms ++ pkgsOfList em
   | .tparam _ => []
-  | .union _ _ => []
+  | .union _ ts => pkgsOfList ts
 
 def pkgsOfList : List Ty → List PkgRef
   | [] => []
